@@ -663,6 +663,14 @@ def expiry(rep, cx):
     for l in lids:
         k = ('sym', 'iter:' + l, 0, INF)
         base = ('add', ('mul', C(cx.esz), k), C(cx.eoff))
+        # the sweep is the loop that can invalidate an entry; a loop that only reads the table (a consistency count for a log
+        # line) has no obligations here - R16.a (who-may-write) covers what it must not do
+        def clears_(s2_):
+            vc_ = s2_.objs['T'].cells.get(mem.off_key(s2_, ('add', base, C(cx.foff('valid')))))
+            return vc_ is not None and s2_.canon(vc_[1]) == ZERO
+        if not any(clears_(s2_) for _k, _t, s2_ in (I.loop_info[l]['iter_states'] or [])) and not any(m_.startswith('T+') for m_ in I.loop_info[l].get('modified', ())) \
+                and 'T' not in (I.loop_info[l].get('smashed') or ()):
+            continue
         for kind, trace, s2 in I.loop_info[l]['iter_states'] or []:
             T = s2.objs['T']
             vcell = T.cells.get(mem.off_key(s2, ('add', base, C(cx.foff('valid')))))
